@@ -34,6 +34,14 @@ class Boom(Exception):
     pass
 
 
+class Hard(BaseException):
+    """an exception that is not an `Exception` (like KeyboardInterrupt, SystemExit, or the
+    GeneratorExit sent into an abandoned `documents` generator)"""
+
+
+RAISE_KINDS = [('', Boom), ('#base', Hard), ('#genexit', GeneratorExit)]
+
+
 class FakeLock(object):
     def __init__(self, kind, log):
         self.kind = kind
@@ -93,7 +101,7 @@ def _nest(rw, kind, depth, log, raising):
             if depth < DEPTH:
                 _nest(rw, kind, depth + 1, log, raising)
             elif raising:
-                raise Boom()
+                raise raising()
     finally:
         log.append(('mark', 'left', depth))
 
@@ -122,12 +130,13 @@ def trace():
         obs = {}
         counters = {'readCtr': 0, 'writeCtr': 0}
         for kind, key in (('reader', 'r'), ('writer', 'w')):
-            for raising in (False, True):
+            for suffix, raising in [('', False)] + RAISE_KINDS:
                 del log[:]
                 try:
                     _nest(rw, kind, 1, log, raising)
-                except Boom:
-                    pass
+                except BaseException as e:  # pylint: disable=broad-except
+                    if not raising or not isinstance(e, raising):
+                        raise
                 segs, cur, before = [], [], dict(counters)
                 for ev in log:
                     if ev[0] == 'mark':
@@ -145,8 +154,8 @@ def trace():
                     if mark[1] == 'in' and not raising:
                         obs.setdefault(key + 'Acq', []).append((before_seg, evs))
                     elif mark[1] == 'left':
-                        obs.setdefault(key + ('RelRaise' if raising else 'Rel'), []).append(
-                            (before_seg, evs))
+                        obs.setdefault(key + ('RelRaise' + suffix if raising else 'Rel'),
+                                       []).append((before_seg, evs))
         return kinds, obs
     finally:
         mthread.threading = orig
@@ -238,6 +247,13 @@ def extract():
     for name in SEQS:
         o = obs.get(name, [])
         steps = merge(o) if len(o) == DEPTH else None
+        if name.endswith('RelRaise'):
+            # the release must not depend on WHICH exception leaves the section
+            for suffix, exc in RAISE_KINDS[1:]:
+                if obs.get(name + suffix, []) != o:
+                    notes.append('sequence %s differs when the section is left by %s (not an '
+                                 'Exception subclass)' % (name, exc.__name__))
+                    steps = None
         if steps is None:
             notes.append('sequence %s could not be translated' % name)
             proto[name] = None
